@@ -248,6 +248,19 @@ func main() {
 		fmt.Println("warm-up build ok")
 		return
 	}
+	if id == "overlay" {
+		// vcheck overlay <dir>: only generate the overlay (for `go test -overlay <dir>/ov/overlay.json ./sim/...`)
+		if len(os.Args) < 3 {
+			die(2, "usage: vcheck overlay <dir>")
+		}
+		goroot, _ := exec.Command(goBin, "env", "GOROOT").Output()
+		res, err := rewrite.Build(rewrite.Options{RepoDir: repoDir(), VerifDir: verifDir, OutDir: filepath.Join(os.Args[2], "ov"), GoRoot: strings.TrimSpace(string(goroot))})
+		if err != nil {
+			die(2, "%v", err)
+		}
+		fmt.Println(res.OverlayPath)
+		return
+	}
 	selftest := false
 	rest := os.Args[2:]
 	if id == "selftest" {
